@@ -441,6 +441,15 @@ def c11_f(ctx):
               "under len(state['acquisition']) == 0",
               'a new acquisition is made although stored points remain', fn=pn,
               node=ac[0] if ac else pn.node)
+    # the acquisition rule is told which acquisition this is (LCBSC's exploration schedule)
+    okt = bool(ac) and all(
+        any(k.arg == 't' and match(ex.term(k.value), pattern(
+            'self._get_acquisition_index(batch_index)')) is not None for k in c.keywords) or
+        (len(c.args) > 1 and match(ex.term(c.args[1]), pattern(
+            'self._get_acquisition_index(batch_index)')) is not None) for c in ac)
+    ctx.check(okt, pn, 'acquire receives the acquisition index', 'acquire(n, t=t)',
+              'acquire is not given the acquisition index of the batch (iteration-dependent '
+              'rules fall back to t=None)', fn=pn, node=ac[0] if ac else pn.node)
     # initial evidence comes from the prior: early return when t < 0
     early = [r for r in returns(pn) if r.value is None]
     ok = any(any(pol and match(t, pattern('self._get_acquisition_index(batch_index) < 0'))
